@@ -323,17 +323,18 @@ Definition slice_by_manifest (fuel : nat) (m : manifest) (q : request) (es : ent
 
 (* ---------------------------------------------------------------- the manifest validator
    Independent of analysis.rs: syntactic access paths of the typed expression.
-   A *direct path* is a chain of GetAttr over a variable or an entity literal (slots stand for the
-   variable they constrain, as in entity_manifest_from_expr). *)
+   A *direct path* is a chain of GetAttr over a variable, an entity literal or a slot; a slot stands for
+   the entity the template is linked with (`sl` = the link's slot environment), exactly as the
+   evaluator reads it.  (The pinned implementation read a slot as the variable it constrains — finding
+   F-C17-a: manifests of `in ?slot` links are rejected here and fail the oracle.) *)
 Definition apath := (root * list str)%type.
 
-Fixpoint direct_path (e : texpr) : option apath :=
+Fixpoint direct_path (sl : slotenv) (e : texpr) : option apath :=
   match e with
   | TEVar v _ => Some (RVar v, [])
-  | TESlot SlotPrincipal _ => Some (RVar Principal, [])
-  | TESlot SlotResource _ => Some (RVar Resource, [])
+  | TESlot s _ => option_map (fun u => (RLit u, [])) (slot_lookup s sl)
   | TELit (PEntity u) _ => Some (RLit u, [])
-  | TEGetAttr e' a _ => match direct_path e' with Some (r, p) => Some (r, p ++ [a]) | None => None end
+  | TEGetAttr e' a _ => match direct_path sl e' with Some (r, p) => Some (r, p ++ [a]) | None => None end
   | _ => None
   end.
 
@@ -357,10 +358,10 @@ Definition covers (m : rtrie) (p : apath) : bool :=
   end.
 
 (* the right operand of `in`: a direct path, or a set literal of direct paths *)
-Definition in_targets (e : texpr) : option (list apath) :=
+Definition in_targets (sl : slotenv) (e : texpr) : option (list apath) :=
   match e with
-  | TESet items _ => omapM direct_path items
-  | _ => option_map (fun p => [p]) (direct_path e)
+  | TESet items _ => omapM (direct_path sl) items
+  | _ => option_map (fun p => [p]) (direct_path sl e)
   end.
 
 Definition anc_marked (m : rtrie) (p : apath) : bool :=
@@ -372,48 +373,56 @@ Definition covers_in (m : rtrie) (lhs : apath) (targets : list apath) : bool :=
   | None => false
   end.
 
-(* every GetAttr chain read by the expression is in the trie, and every `a in b` over direct paths has
-   b's paths marked in the ancestors trie of a's node *)
-Fixpoint adequate (m : rtrie) (e : texpr) {struct e} : bool :=
-  let here :=
-    match e with
-    | TEGetAttr _ _ _ => match direct_path e with Some p => covers m p | None => true end
-    | TEBinApp BIn a b _ =>
-        match direct_path a, in_targets b with
-        | Some pa, Some ts => covers_in m pa ts
-        | _, _ => true
-        end
-    | _ => true
-    end in
-  here &&
+Definition typed_false (e : texpr) : bool :=
+  match ty_of e with Some (TBool BFalse) => true | _ => false end.
+
+(* what this node itself requires of the manifest *)
+Definition here_ok (sl : slotenv) (m : rtrie) (e : texpr) : bool :=
   match e with
-  | TELit _ _ | TEVar _ _ | TESlot _ _ | TEUnknown _ _ _ => true
-  | TEIf c a b _ => adequate m c && adequate m a && adequate m b
-  | TEAnd a b _ | TEOr a b _ | TEBinApp _ a b _ => adequate m a && adequate m b
-  | TEUnApp _ a _ | TEGetAttr a _ _ | TEHasAttr a _ _ | TELike a _ _ | TEIs a _ _ => adequate m a
-  | TEExtCall _ args _ | TESet args _ => forallb (adequate m) args
-  | TERecord items _ => forallb (fun kv => adequate m (snd kv)) items
+  | TEGetAttr _ _ _ => match direct_path sl e with Some p => covers m p | None => true end
+  | TEHasAttr e' a _ =>
+      (* `x has a`: the path x.a unless the typechecker proved the test False (to_typed drops
+         attributes the schema does not declare) *)
+      if typed_false e then true
+      else match direct_path sl e' with Some (r, p) => covers m (r, p ++ [a]) | None => true end
+  | TEBinApp BIn a b _ =>
+      match direct_path sl a, in_targets sl b with
+      | Some pa, Some ts => covers_in m pa ts
+      | _, _ => true
+      end
+  | _ => true
   end.
 
-(* the first path the validator misses (for the report) *)
-Fixpoint missing (m : rtrie) (e : texpr) {struct e} : list apath :=
-  (match e with
-   | TEGetAttr _ _ _ => match direct_path e with
-                        | Some p => if covers m p then [] else [p]
-                        | None => []
-                        end
-   | TEBinApp BIn a b _ =>
-       match direct_path a, in_targets b with
-       | Some pa, Some ts => if covers_in m pa ts then [] else [pa]
-       | _, _ => []
-       end
-   | _ => []
-   end) ++
+(* every GetAttr / has chain read by the expression is in the trie, and every `a in b` over direct paths
+   has b's paths marked in the ancestors trie of a's node *)
+Fixpoint adequate (sl : slotenv) (m : rtrie) (e : texpr) {struct e} : bool :=
+  here_ok sl m e &&
+  match e with
+  | TELit _ _ | TEVar _ _ | TESlot _ _ | TEUnknown _ _ _ => true
+  | TEIf c a b _ => adequate sl m c && adequate sl m a && adequate sl m b
+  | TEAnd a b _ | TEOr a b _ | TEBinApp _ a b _ => adequate sl m a && adequate sl m b
+  | TEUnApp _ a _ | TEGetAttr a _ _ | TEHasAttr a _ _ | TELike a _ _ | TEIs a _ _ => adequate sl m a
+  | TEExtCall _ args _ | TESet args _ => forallb (adequate sl m) args
+  | TERecord items _ => forallb (fun kv => adequate sl m (snd kv)) items
+  end.
+
+(* the paths the validator misses (for the report) *)
+Definition here_missing (sl : slotenv) (m : rtrie) (e : texpr) : list apath :=
+  if here_ok sl m e then []
+  else match e with
+       | TEGetAttr _ _ _ => match direct_path sl e with Some p => [p] | None => [] end
+       | TEHasAttr e' a _ => match direct_path sl e' with Some (r, p) => [(r, p ++ [a])] | None => [] end
+       | TEBinApp BIn a _ _ => match direct_path sl a with Some pa => [pa] | None => [] end
+       | _ => []
+       end.
+
+Fixpoint missing (sl : slotenv) (m : rtrie) (e : texpr) {struct e} : list apath :=
+  here_missing sl m e ++
   match e with
   | TELit _ _ | TEVar _ _ | TESlot _ _ | TEUnknown _ _ _ => []
-  | TEIf c a b _ => missing m c ++ missing m a ++ missing m b
-  | TEAnd a b _ | TEOr a b _ | TEBinApp _ a b _ => missing m a ++ missing m b
-  | TEUnApp _ a _ | TEGetAttr a _ _ | TEHasAttr a _ _ | TELike a _ _ | TEIs a _ _ => missing m a
-  | TEExtCall _ args _ | TESet args _ => flat_map (missing m) args
-  | TERecord items _ => flat_map (fun kv => missing m (snd kv)) items
+  | TEIf c a b _ => missing sl m c ++ missing sl m a ++ missing sl m b
+  | TEAnd a b _ | TEOr a b _ | TEBinApp _ a b _ => missing sl m a ++ missing sl m b
+  | TEUnApp _ a _ | TEGetAttr a _ _ | TEHasAttr a _ _ | TELike a _ _ | TEIs a _ _ => missing sl m a
+  | TEExtCall _ args _ | TESet args _ => flat_map (missing sl m) args
+  | TERecord items _ => flat_map (fun kv => missing sl m (snd kv)) items
   end.
